@@ -487,7 +487,7 @@ func c01Check(r *vrt.R, cs *c01Case, cfg c01Cfg, chunking string, st *c01Stats) 
 			st.mustCloseDispatched++
 			if k+1 < len(run.calls) {
 				nx := run.calls[k+1]
-				viol(ref.reason+"-kept-alive", fmt.Sprintf("%sframing class must-close (%s), but the server then dispatched %s %s on the same connection", desc, ref.reason, nx.method, vrt.Q([]byte(nx.target))))
+				viol(ref.reason+"-kept-alive", fmt.Sprintf("%sframing class must-close (%s), but the server then dispatched %s %s on the same connection", desc, ref.reason, c01ClipS(nx.method), vrt.Q([]byte(c01ClipS(nx.target)))))
 				return
 			}
 			stopped = true
